@@ -609,60 +609,46 @@ def r2_enable_fh(L, repo):
 
 
 def r8_setfh_applied(L, repo):
-    """R8 (the frequencies in use are those of the last accepted SETFH): every successful SETFH installs its parameters.
-    A handler that skips enable_fh() when the new parameters "equal" the installed ones is sound only if that equality
-    covers everything resolve() selects a channel from: HSN, MAIO and the channel list itself.  The guards between the
-    SETFH branch and the enable_fh call are examined; a comparison of hopping-parameter objects is decided from the
-    attributes the class's own __eq__ (through __str__ / helpers) reads."""
-    ci0, pc = repo.need_method("ctrl_if_trx", "CTRLInterfaceTRX", "parse_cmd")
+    """R8 (the frequencies in use are those of the last accepted SETFH): a SETFH whose parameters differ from the
+    installed ones - in HSN, in MAIO, or in a single channel of the list - installs them.  A handler that skips
+    enable_fh() for parameters it takes to be "the same" is sound only if its notion of sameness covers all three.
+    Decided by folding the command handler (objects modelled: the installed configuration is the object the class's own
+    constructor builds, comparisons go through the class's own __eq__) for each single-difference request."""
+    from cmdfold import fold_parse_cmd
+    from consteval import Ev, Unknown, Raised, Instance
     F0 = rel("ctrl_if_trx")
     fn = "CTRLInterfaceTRX.parse_cmd"
-    cfg = CFG(pc)
-    calls = [c for c in calls_in_(pc) if canon(c.func).endswith("enable_fh")]
-    L.floor("C02.R8", "enable_fh calls in parse_cmd", len(calls), 1)
     hci = repo.need_class("gsm_shared", "HoppingParams")
-    for c in calls:
-        lits = guard_literals(cfg, cfg.node_of(c))
-        extra = [(t, pol) for t, pol in lits if "HoppingParams(" in t or ".fh" in t]
-        if not extra:
-            L.ob("C02.R8", F0, fn, "an accepted SETFH always installs its parameters (no condition on the installed ones)", [], [], True, c.lineno)
-            continue
-        eq = hci.methods.get("__eq__") or hci.methods.get("__ne__")
-        if eq is None:
-            # identity comparison: a freshly built object never equals the installed one - the call is always made
-            L.ob("C02.R8", F0, fn, "an accepted SETFH always installs its parameters (objects compare by identity)", [], [], True, c.lineno)
-            continue
-        # decided by folding the class's own equality on objects built by its own constructor: parameter sets that differ
-        # in exactly one of HSN / MAIO / one channel of the list must compare unequal
-        from consteval import Ev, Unknown, Raised, Instance
-        c_i, init = repo.need_method("gsm_shared", "HoppingParams", "__init__")
+    c_i, init = repo.need_method("gsm_shared", "HoppingParams", "__init__")
 
-        def build(hsn, maio, ma):
-            e = Ev(repo, hci.mod, env={}, self_cls=hci)
-            e.ignore_calls = ("log.", "logging.")
-            for k_, v_ in e._bindargs(init, ["<self>", hsn, maio, ma], {}):
-                if k_ != "self":
-                    e.env[k_] = v_
-            e.run_block(init.body)
-            return {k[5:]: v for k, v in e.env.items() if isinstance(k, str) and k.startswith("self.")}
-        base = (5, 1, [(935000000, 890000000), (935200000, 890200000)])
-        variants = {"HSN": (6, 1, base[2]), "MAIO": (5, 0, base[2]),
-                    "one channel of the list": (5, 1, [(935000000, 890000000), (936000000, 891000000)])}
-        bad = []
-        try:
-            a = build(*base)
-            for what, v in variants.items():
-                b = build(*v)
-                e = Ev(repo, hci.mod, env=dict({"self." + k: x for k, x in a.items()}, **{params(eq)[1]: Instance(hci, attrs=b)}), self_cls=hci)
-                r = e.run_block(eq.body)
-                res = r[1] if isinstance(r, tuple) else None
-                same = bool(res) if eq.name == "__eq__" else not bool(res)
-                if same:
-                    bad.append("parameters differing in %s compare equal" % what)
-        except (Unknown, Raised) as ex:
-            raise AnalysisError("HoppingParams.%s does not fold: %s" % (eq.name, ex))
-        L.ob("C02.R8", F0, fn, "SETFH is skipped for parameters equal to the installed ones: HoppingParams' equality distinguishes HSN, MAIO and every channel of the list",
-             [], bad, not bad, c.lineno)
+    def build(hsn, maio, ma):
+        e = Ev(repo, hci.mod, env={}, self_cls=hci)
+        e.ignore_calls = ("log.", "logging.")
+        for k_, v_ in e._bindargs(init, ["<self>", hsn, maio, ma], {}):
+            if k_ != "self":
+                e.env[k_] = v_
+        e.run_block(init.body)
+        return Instance(hci, label="installed", attrs={k[5:]: v for k, v in e.env.items() if isinstance(k, str) and k.startswith("self.") and k.count(".") == 1})
+    base = (5, 1, [(935000, 890000), (935200, 890200)])
+    variants = {"the same parameters": base, "HSN": (6, 1, base[2]), "MAIO": (5, 0, base[2]),
+                "one channel of the list": (5, 1, [(935000, 890000), (936000, 891000)]),
+                "the order of the channels": (5, 1, [(935200, 890200), (935000, 890000)])}
+    try:
+        installed = build(base[0], base[1], [(r * 1000, t * 1000) for r, t in base[2]])
+    except (Unknown, Raised) as ex:
+        raise AnalysisError("HoppingParams.__init__ does not fold: %s" % ex)
+    n = 0
+    for what, (hsn, maio, ma) in variants.items():
+        req = ["SETFH", str(hsn), str(maio)] + [str(x) for pair in ma for x in pair]
+        f = fold_parse_cmd(repo, req, {"fh": installed, "running": False}, model_objects=True)
+        applied = [c_ for c_ in f.calls if c_[0] == "enable_fh"]
+        n += 1
+        if what == "the same parameters":
+            continue        # re-installing or skipping identical parameters are both fine
+        L.ob("C02.R8", F0, fn, "SETFH that differs from the installed configuration in %s installs the new parameters" % what,
+             "enable_fh(%d, %d, ...)" % (hsn, maio), [c_[1][:2] for c_ in applied] or "enable_fh is not called (status %r)" % (f.ret,),
+             len(applied) == 1 and f.ret == 0, None)
+    L.floor("C02.R8", "single-difference SETFH requests folded", n, 5)
 
 
 def run(L, tier):
